@@ -152,8 +152,19 @@ struct Call
     int maxsize;
 };
 static std::vector<Call> g_calls;
+// nested dispatch: while a handler runs (before it reads its own argv) it dispatches / splits another line itself
+static int g_nest_mode = -1; // -1: none; 0..5 see run_nested
+static std::string g_nest_line;
+static int g_depth = 0;
+static void run_nested();
 static void record(int which, int argc, char **argv, char *out, int maxsize)
 {
+    if (g_nest_mode >= 0 && g_depth == 0)
+    {
+        g_depth++;
+        run_nested();
+        g_depth--;
+    }
     Call c{which, argc, {}, out, maxsize};
     if (argc < 0 || argc > 64)
         vf::fail_nothrow("dispatcher:handler-argc-out-of-range", "handler %d called with argc=%d", which, argc);
@@ -493,6 +504,125 @@ static void rand_run(uint64_t idx)
 }
 VF_SUITE(shell_random, rand_count, rand_run)
 
+#ifndef C19_VALGRIND
+// ---------------------------------------------------------------- nested dispatch: a handler that runs another line
+// ("alias", "repeat", script commands) and then goes on reading its own arguments, which must be unchanged
+static int g_nest_table = 0;
+static void run_nested()
+{
+    vf::ExactStr e(g_nest_line, 1, false);
+    int rv = 0;
+    char out[4];
+    const mshell_command *mtabs[3] = {MT[(g_nest_table + 1) % NTABLES], MT[g_nest_table], nullptr};
+    const rshell_command_table rtabs[3] = {{RT[(g_nest_table + 2) % NTABLES], 0}, {RT[g_nest_table], 0}, {nullptr, 0}};
+    switch (g_nest_mode)
+    {
+    case 0:
+        mshell_execute(e.c(), MT[g_nest_table], &rv);
+        break;
+    case 1:
+        mshell_tables_execute(e.c(), mtabs, &rv);
+        break;
+    case 2:
+        rshell_execute(e.c(), RT[g_nest_table], &rv, 0, out, 4);
+        break;
+    case 3:
+        rshell_tables_execute(e.c(), rtabs, &rv, out, 4);
+        break;
+    case 4:
+    {
+        char *av[ARGCMAX_SHELL];
+        (void)argvc_internal_split(e.c(), av, ARGCMAX_SHELL);
+        break;
+    }
+    default:
+    {
+        char *av[ARGCMAX_SHELL];
+        (void)argvc_internal_split_n(e.c(), (int)g_nest_line.size(), av, ARGCMAX_SHELL);
+    }
+    }
+}
+static const char *const OUTER_NAME[4] = {"mshell_execute", "mshell_tables_execute", "rshell_execute", "rshell_tables_execute"};
+static void check_nested(const std::string &line, const std::string &inner, int t, int outer, int mode)
+{
+    build_tables();
+    std::vector<Tok> toks = ref_tokens(line);
+    Toks all = tok_strings(line, toks, ARGCMAX_SHELL);
+    if (all.empty() || lookup(t, all[0]) < 0)
+        return; // the outer line must reach a handler
+    // which handler the outer dispatcher reaches (tables variants look at another table first)
+    int which = lookup(t, all[0]);
+    if (outer == 1 && lookup((t + 1) % NTABLES, all[0]) >= 0)
+        which = lookup((t + 1) % NTABLES, all[0]);
+    if (outer == 3 && lookup((t + 2) % NTABLES, all[0]) >= 0)
+        which = lookup((t + 2) % NTABLES, all[0]);
+    vf::ExactStr e(line, 1, false);
+    const mshell_command *mtabs[3] = {MT[(t + 1) % NTABLES], MT[t], nullptr};
+    const rshell_command_table rtabs[3] = {{RT[(t + 2) % NTABLES], 0}, {RT[t], 0}, {nullptr, 0}};
+    char out[4];
+    int rv = -7, ret;
+    g_calls.clear();
+    g_nest_mode = mode;
+    g_nest_line = inner;
+    g_nest_table = (t + 3) % NTABLES;
+    char cls[80];
+    snprintf(cls, sizeof cls, "%s:nested", OUTER_NAME[outer]);
+    vf::cls(cls);
+    if (vf::verbose())
+        printf("  nested: %s(\"%s\") whose handler runs mode %d on \"%s\"\n", OUTER_NAME[outer], show(line).c_str(), mode, show(inner).c_str());
+    switch (outer)
+    {
+    case 0:
+        ret = mshell_execute(e.c(), MT[t], &rv);
+        break;
+    case 1:
+        ret = mshell_tables_execute(e.c(), mtabs, &rv);
+        break;
+    case 2:
+        ret = rshell_execute(e.c(), RT[t], &rv, 0, out, 4);
+        break;
+    default:
+        ret = rshell_tables_execute(e.c(), rtabs, &rv, out, 4);
+    }
+    g_nest_mode = -1;
+    // the outer handler's record is the last one (it reads its argv after the nested activity)
+    char key[160];
+    if (g_calls.empty() || g_calls.back().which != which || g_calls.back().argv != all || ret != SSHELL_OK || rv != 100 + which)
+    {
+        snprintf(key, sizeof key, "dispatcher:%s:argv-changed-by-nested-activity", OUTER_NAME[outer]);
+        vf::fail(key, "line=\"%s\" table=%d; its handler ran %s on \"%s\" and then saw argv=%s (handler %d, ret=%d, *retptr=%d), reference %s (handler %d)",
+                 show(line).c_str(), t, mode < 4 ? OUTER_NAME[mode] : mode == 4 ? "argvc_internal_split" : "argvc_internal_split_n", show(inner).c_str(),
+                 g_calls.empty() ? "-" : show(g_calls.back().argv).c_str(), g_calls.empty() ? -1 : g_calls.back().which, ret, rv, show(all).c_str(), which);
+    }
+    VF_OK("a handler that dispatches / splits another line still sees its own argc/argv afterwards");
+}
+static std::string command_line(vf::Rng &r)
+{
+    static const char *HEADS[] = {"a", "ab", "b", "a/", ".", "\"", "ba", "zz", "\xE1"};
+    std::string s = HEADS[r.below(sizeof HEADS / sizeof HEADS[0])];
+    int nargs = (int)r.below(r.chance(1, 6) ? 13 : 5);
+    for (int i = 0; i < nargs; i++)
+    {
+        s += r.chance(1, 5) ? "\t " : " ";
+        int l = 1 + (int)r.below(5);
+        for (int j = 0; j < l; j++)
+            s += "ab/.xyz01"[r.below(9)];
+    }
+    return s;
+}
+static uint64_t nested_count() { return scaled(vf::thorough() ? 20000 : 600); }
+static void nested_run(uint64_t idx)
+{
+    vf::Rng r(vf::seed(), 0xC19E, idx);
+    std::string line = command_line(r), inner = r.chance(1, 8) ? std::string("  ") : command_line(r);
+    for (int t = 0; t < NTABLES; t++)
+        for (int outer = 0; outer < 4; outer++)
+            check_nested(line, inner, t, outer, (int)((idx + (uint64_t)outer + (uint64_t)t) % 6));
+    vf::count_case(vf::hash_bytes(line.data(), line.size(), vf::hash_bytes(inner.data(), inner.size())), true);
+}
+VF_SUITE(shell_nested, nested_count, nested_run)
+#endif
+
 void c19_shell_setup()
 {
     for (const char *c : {"argvc_internal_split: argc <= argcmax", "argvc_internal_split == first argcmax white-space tokens",
@@ -500,6 +630,7 @@ void c19_shell_setup()
                           "argvc_internal_split_n == first argcmax white-space tokens of the sized text",
                           "argvc_internal_split_n: last token touches the end of the block",
                           "long tokens / command names (254..5000 characters) through the argv splitters and dispatchers",
+                          "a handler that dispatches / splits another line still sees its own argc/argv afterwards",
 #else
                           "memcheck silent during the dispatcher call",
 #endif
